@@ -422,4 +422,238 @@ theorem sim_after {α : Type} [Arith α] (si : SIConf) (pr : Prec) (c ca : Core 
   have hunits : ∀ x, posOf c b.1 x → ca.units[x]? = c.units[x]? := fun x hx => hframe x (hpos x hx)
   exact ⟨hunits, fun x hx => (hunits x hx).symm, fun k hk => (hlook k (fun hka => hind.2 k hka hk)).symm⟩
 
+/-! ## Locality: a list of pairwise independent entries succeeds iff every entry succeeds on its own -/
+
+/-- the side conditions that hold for the resolved entries of a block -/
+structure Entries {α : Type} [Arith α] (si : SIConf) (c : Core α) (pr : Prec) (l : List (Nat × ExtendEntry α)) : Prop where
+  haskey : ∀ ie, ie ∈ l → HasKey c ie.1
+  child : ∀ ie, ie ∈ l → ∀ u, c.units[ie.1]? = some u → u.isExpanded = true → entryTouchesBase ie.2 = false
+  indep : l.Pairwise (Indep si c pr)
+
+theorem applyExtendList_local {α : Type} [Arith α] (si : SIConf) (pr : Prec) (l : List (Nat × ExtendEntry α)) (c : Core α)
+    (hc : Ready c) (hsi : SIInv si c.units) (he : Entries si c pr l) :
+    (∃ c', applyExtendList si pr l c = .ok c') ↔ ∀ ie, ie ∈ l → ∃ c', applyExtendOne si pr c ie = .ok c' := by
+  induction l generalizing c with
+  | nil => simp [applyExtendList]
+  | cons a rest ih =>
+    obtain ⟨ua, ka, hua, hka⟩ := he.haskey a (by simp)
+    have hpw := List.pairwise_cons.mp he.indep
+    -- what holds after `a`, if `a` succeeds
+    have hafter : ∀ ca, applyExtendOne si pr c a = .ok ca →
+        Ready ca ∧ SIInv si ca.units ∧ Entries si ca pr rest ∧
+        ∀ x, x ∈ rest → ((∃ c', applyExtendOne si pr c x = .ok c') ↔ (∃ c', applyExtendOne si pr ca x = .ok c')) := by
+      intro ca hca
+      have hrca := ((applyExtendOne_good si pr c a hc (lt_of_getElem?_some hua)).of_ok hca).1
+      have hsica := applyExtendOne_si si pr c ca a ua hc hsi hua (he.child a (by simp) ua hua) hca
+      have hsim : ∀ x, x ∈ rest → (∀ y, posOf c x.1 y → ca.units[y]? = c.units[y]?) ∧ Sim (posOf c x.1) (touched si c pr x) c ca :=
+        fun x hx => sim_after si pr c ca a x hc hsi ⟨ua, ka, hua, hka⟩ (he.haskey x (by simp [hx])) (hpw.1 x hx) hca
+      refine ⟨hrca, hsica, ⟨?_, ?_, ?_⟩, ?_⟩
+      · intro x hx
+        obtain ⟨ux, kx, hux, hkx⟩ := he.haskey x (by simp [hx])
+        exact ⟨ux, kx, by rw [(hsim x hx).1 x.1 (Or.inl rfl)]; exact hux, hkx⟩
+      · intro x hx u hu hexp
+        rw [(hsim x hx).1 x.1 (Or.inl rfl)] at hu
+        exact he.child x (by simp [hx]) u hu hexp
+      · refine hpw.2.imp_of_mem ?_
+        intro x y hx hy hxy
+        refine ⟨hxy.1, ?_⟩
+        rw [touched_congr si c ca pr x (hsim x hx).1, touched_congr si c ca pr y (hsim y hy).1]
+        exact hxy.2
+      · intro x hx
+        exact (applyExtendOne_sim si pr c ca x hc hrca (hsim x hx).2).ok_iff
+    constructor
+    · rintro ⟨c', h⟩
+      unfold applyExtendList at h
+      split at h
+      · cases h
+      · rename_i ca hca
+        obtain ⟨hrca, hsica, heca, hiff⟩ := hafter ca hca
+        have hrest := (ih ca hrca hsica heca).mp ⟨c', h⟩
+        intro x hx
+        rcases List.mem_cons.mp hx with rfl | hx
+        · exact ⟨ca, hca⟩
+        · exact (hiff x hx).mpr (hrest x hx)
+    · intro hall
+      obtain ⟨ca, hca⟩ := hall a (by simp)
+      obtain ⟨hrca, hsica, heca, hiff⟩ := hafter ca hca
+      obtain ⟨c', h'⟩ := (ih ca hrca hsica heca).mpr (fun x hx => (hiff x hx).mp (hall x (by simp [hx])))
+      exact ⟨c', by unfold applyExtendList; rw [hca]; exact h'⟩
+
+theorem Entries.perm {α : Type} [Arith α] {si : SIConf} {c : Core α} {pr : Prec} {l l' : List (Nat × ExtendEntry α)}
+    (h : Entries si c pr l) (hp : l'.Perm l) : Entries si c pr l' :=
+  ⟨fun ie hie => h.haskey ie (hp.mem_iff.mp hie), fun ie hie => h.child ie (hp.mem_iff.mp hie),
+   (hp.pairwise_iff (fun hxy => hxy.symm)).mpr h.indep⟩
+
+/-- success of a list of independent entries does not depend on their order -/
+theorem applyExtendList_perm_ok {α : Type} [Arith α] (si : SIConf) (pr : Prec) (l l' : List (Nat × ExtendEntry α)) (c : Core α)
+    (hc : Ready c) (hsi : SIInv si c.units) (he : Entries si c pr l) (hp : l'.Perm l)
+    (h : ∃ c1, applyExtendList si pr l c = .ok c1) : ∃ c2, applyExtendList si pr l' c = .ok c2 := by
+  rw [applyExtendList_local si pr l' c hc hsi (he.perm hp)]
+  intro ie hie
+  exact (applyExtendList_local si pr l c hc hsi he).mp h ie (hp.mem_iff.mp hie)
+
+/-! ## The resolve loop is a map with side conditions -/
+
+def resolveFn {α : Type} (c : Core α) (ke : Key × ExtendEntry α) : Nat × ExtendEntry α := ((idxGet c.index ke.1).getD 0, ke.2)
+
+def ResolvCond {α : Type} (c : Core α) (acc : List (Nat × ExtendEntry α)) (l : List (Key × ExtendEntry α)) : Prop :=
+  (∀ ke, ke ∈ l → ∃ id u, idxGet c.index ke.1 = some id ∧ c.units[id]? = some u ∧ (u.isExpanded && entryTouchesBase ke.2) = false) ∧
+  (acc.map (·.1) ++ l.map (fun ke => (resolveFn c ke).1)).Nodup
+
+theorem resolveExtend_iff {α : Type} (c : Core α) (l : List (Key × ExtendEntry α)) (acc upd : List (Nat × ExtendEntry α))
+    (hacc : (acc.map (·.1)).Nodup) :
+    resolveExtend c l acc = .ok upd ↔ ResolvCond c acc l ∧ upd = acc ++ l.map (resolveFn c) := by
+  induction l generalizing acc upd with
+  | nil =>
+    simp only [resolveExtend, Except.ok.injEq, ResolvCond, List.not_mem_nil, false_imp_iff, implies_true, List.map_nil,
+      List.append_nil, true_and]
+    constructor
+    · rintro rfl; exact ⟨hacc, rfl⟩
+    · rintro ⟨_, rfl⟩; rfl
+  | cons ke rest ih =>
+    have hany : ∀ id, acc.any (fun x => x.1 == id) = true ↔ id ∈ acc.map (·.1) := by
+      intro id; simp [List.any_eq_true]
+    constructor
+    · intro h
+      unfold resolveExtend at h
+      split at h
+      · cases h
+      · rename_i id hid
+        split at h
+        · cases h
+        · rename_i hnot
+          split at h
+          · cases h
+          · rename_i u hu
+            split at h
+            · cases h
+            · rename_i hexp
+              have hidnot : id ∉ acc.map (·.1) := fun hm => hnot ((hany id).mpr hm)
+              have hacc' : ((acc ++ [(id, ke.2)]).map (·.1)).Nodup := by
+                simp only [List.map_append, List.map_cons, List.map_nil]
+                exact List.nodup_append.mpr ⟨hacc, by simp, by
+                  intro a ha b hb; simp at hb; subst hb; intro e; subst e; exact hidnot ha⟩
+              obtain ⟨⟨c1, c2⟩, c3⟩ := (ih (acc ++ [(id, ke.2)]) upd hacc').mp h
+              have hfn : resolveFn c ke = (id, ke.2) := by simp [resolveFn, hid]
+              refine ⟨⟨?_, ?_⟩, ?_⟩
+              · intro x hx
+                rcases List.mem_cons.mp hx with rfl | hx
+                · exact ⟨id, u, hid, hu, by simpa using hexp⟩
+                · exact c1 x hx
+              · simpa [hfn, List.append_assoc] using c2
+              · rw [c3]; simp [hfn]
+    · rintro ⟨⟨c1, c2⟩, rfl⟩
+      obtain ⟨id, u, hid, hu, hexp⟩ := c1 ke (by simp)
+      have hfn : resolveFn c ke = (id, ke.2) := by simp [resolveFn, hid]
+      have c2' : (acc.map (·.1) ++ id :: rest.map (fun ke => (resolveFn c ke).1)).Nodup := by simpa [hfn] using c2
+      have hidnot : id ∉ acc.map (·.1) := by
+        intro hm
+        have := (List.nodup_append.mp c2').2.2 id hm id (by simp)
+        exact this rfl
+      have hacc' : ((acc ++ [(id, ke.2)]).map (·.1)).Nodup := by
+        simp only [List.map_append, List.map_cons, List.map_nil]
+        exact List.nodup_append.mpr ⟨hacc, by simp, by
+          intro a ha b hb; simp at hb; subst hb; intro e; subst e; exact hidnot ha⟩
+      unfold resolveExtend
+      rw [hid]; simp only
+      have hn : ¬ acc.any (fun x => x.1 == id) = true := fun h => hidnot ((hany id).mp h)
+      simp only [hn, Bool.false_eq_true, ↓reduceIte, hu, hexp]
+      rw [(ih (acc ++ [(id, ke.2)]) _ hacc').mpr ⟨⟨fun x hx => c1 x (by simp [hx]), by simpa [List.append_assoc] using c2'⟩, rfl⟩]
+      simp [hfn]
+
+theorem ResolvCond.perm {α : Type} {c : Core α} {l l' : List (Key × ExtendEntry α)} (h : ResolvCond c [] l) (hp : l'.Perm l) :
+    ResolvCond c [] l' := by
+  refine ⟨fun ke hke => h.1 ke (hp.mem_iff.mp hke), ?_⟩
+  have := h.2
+  simp only [List.map_nil, List.nil_append] at this ⊢
+  exact ((hp.map _).nodup_iff).mpr this
+
+/-! ## The full order theorem for a block -/
+
+/-- the keys an entry `(key, e)` of a block touches in state `c`: an unknown key touches itself -/
+def entryKeys {α : Type} [Arith α] (si : SIConf) (c : Core α) (pr : Prec) (ke : Key × ExtendEntry α) : List Key :=
+  match idxGet c.index ke.1 with
+  | none => [ke.1]
+  | some id => touched si c pr (id, ke.2)
+
+/-- the entries of a block touch pairwise disjoint key sets -/
+def DisjointEntries {α : Type} [Arith α] (si : SIConf) (c : Core α) (g : Extend α) : Prop :=
+  g.units.Pairwise (fun a b => ∀ k, k ∈ entryKeys si c g.precedence a → k ∉ entryKeys si c g.precedence b)
+
+theorem DisjointEntries.perm {α : Type} [Arith α] {si : SIConf} {c : Core α} {g g' : Extend α} (h : DisjointEntries si c g)
+    (hprec : g'.precedence = g.precedence) (hp : g'.units.Perm g.units) : DisjointEntries si c g' := by
+  unfold DisjointEntries at *
+  rw [hprec]
+  exact (hp.pairwise_iff (fun hxy k hb ha => hxy k ha hb)).mpr h
+
+/-- the resolved entries of a block with disjoint entries satisfy the side conditions of the locality theorem -/
+theorem entries_of_resolved {α : Type} [Arith α] (si : SIConf) (c : Core α) (g : Extend α) (hc : Ready c)
+    (hcond : ResolvCond c [] g.units) (hdis : DisjointEntries si c g) :
+    Entries si c g.precedence (g.units.map (resolveFn c)) := by
+  refine ⟨?_, ?_, ?_⟩
+  · intro ie hie
+    obtain ⟨ke, hke, rfl⟩ := List.mem_map.mp hie
+    obtain ⟨id, u, hid, hu, _⟩ := hcond.1 ke hke
+    obtain ⟨_, u', hu', hk⟩ := hc.1.sound _ _ hid
+    exact ⟨u', ke.1, by simpa [resolveFn, hid] using hu', hk⟩
+  · intro ie hie u hu hexp
+    obtain ⟨ke, hke, rfl⟩ := List.mem_map.mp hie
+    obtain ⟨id, u', hid, hu', hx⟩ := hcond.1 ke hke
+    simp only [resolveFn, hid, Option.getD_some] at hu
+    rw [hu'] at hu; cases hu
+    show entryTouchesBase ke.2 = false
+    simpa [hexp] using hx
+  · rw [List.pairwise_map]
+    have hnd : g.units.Pairwise (fun a b => (resolveFn c a).1 ≠ (resolveFn c b).1) := by
+      have := hcond.2
+      simp only [List.map_nil, List.nil_append] at this
+      exact List.pairwise_map.mp this
+    refine (hnd.and hdis).imp_of_mem ?_
+    intro a b ha hb ⟨hne, hd⟩
+    obtain ⟨ida, _, hida, _, _⟩ := hcond.1 a ha
+    obtain ⟨idb, _, hidb, _, _⟩ := hcond.1 b hb
+    refine ⟨hne, ?_⟩
+    intro k hka hkb
+    apply hd k
+    · simpa [entryKeys, hida, resolveFn] using hka
+    · simpa [entryKeys, hidb, resolveFn] using hkb
+
+/-- one direction: if the block succeeds in one order it succeeds in every other, with the same result -/
+theorem applyExtendGroup_order_ok {α : Type} [Arith α] (si : SIConf) (c c1 : Core α) (g g' : Extend α) (hc : Ready c)
+    (hsi : SIInv si c.units) (hprec : g'.precedence = g.precedence) (hperm : g'.units.Perm g.units) (hdis : DisjointEntries si c g)
+    (h1 : applyExtendGroup si c g = .ok c1) : ∃ c2, applyExtendGroup si c g' = .ok c2 ∧ CoreEq c1 c2 := by
+  have h1' := h1
+  unfold applyExtendGroup at h1
+  split at h1
+  · cases h1
+  · rename_i upd hupd
+    obtain ⟨hcond, hupdeq⟩ := (resolveExtend_iff c g.units [] upd (by simp)).mp hupd
+    simp only [List.nil_append] at hupdeq
+    subst hupdeq
+    have hcond' := hcond.perm hperm
+    have hupd' : resolveExtend c g'.units [] = .ok (g'.units.map (resolveFn c)) :=
+      (resolveExtend_iff c g'.units [] _ (by simp)).mpr ⟨hcond', by simp⟩
+    have hent := entries_of_resolved si c g hc hcond hdis
+    obtain ⟨c2, h2⟩ := applyExtendList_perm_ok si g.precedence _ (g'.units.map (resolveFn c)) c hc hsi hent (hperm.map _) ⟨c1, h1⟩
+    have hg' : applyExtendGroup si c g' = .ok c2 := by
+      unfold applyExtendGroup; rw [hupd', hprec]; exact h2
+    exact ⟨c2, hg', applyExtendGroup_order_unique si c c1 c2 g g' hc hsi hprec hperm h1' hg'⟩
+
+/-- The order clause in full: for a block whose entries touch pairwise disjoint key sets, every iteration order has the
+    same outcome — the same units and lookups, or an error in every order. -/
+theorem applyExtendGroup_order_full {α : Type} [Arith α] (si : SIConf) (c : Core α) (g g' : Extend α) (hc : Ready c)
+    (hsi : SIInv si c.units) (hprec : g'.precedence = g.precedence) (hperm : g'.units.Perm g.units) (hdis : DisjointEntries si c g) :
+    (∃ c1 c2, applyExtendGroup si c g = .ok c1 ∧ applyExtendGroup si c g' = .ok c2 ∧ CoreEq c1 c2) ∨
+    (∃ e1 e2, applyExtendGroup si c g = .error e1 ∧ applyExtendGroup si c g' = .error e2) := by
+  cases h1 : applyExtendGroup si c g with
+  | ok c1 =>
+    obtain ⟨c2, h2, heq⟩ := applyExtendGroup_order_ok si c c1 g g' hc hsi hprec hperm hdis h1
+    exact Or.inl ⟨c1, c2, rfl, h2, heq⟩
+  | error e1 =>
+    cases h2 : applyExtendGroup si c g' with
+    | error e2 => exact Or.inr ⟨e1, e2, rfl, rfl⟩
+    | ok c2 =>
+      obtain ⟨c1, h1', _⟩ := applyExtendGroup_order_ok si c c2 g' g hc hsi hprec.symm hperm.symm (hdis.perm hprec hperm) h2
+      rw [h1] at h1'; cases h1'
+
 end Cook.Bld
